@@ -1,5 +1,6 @@
 (* Proofs about Model/NullCol.v: IS [NOT] NULL on a named column. *)
 From SV Require Import Model.Like Model.NullCol.
+From Coq Require Import Lia.
 
 Lemma nc_bytes_eqb_eq (a b : bytes) : bytes_eqb a b = true <-> a = b.
 Proof.
@@ -118,3 +119,72 @@ Qed.
 Lemma sql_is_null_pred_negation n r :
   sql_is_null_pred true n r = negb (sql_is_null_pred false n r).
 Proof. rewrite !sql_is_null_pred_correct. reflexivity. Qed.
+
+(* ---- the aggregated CASE flags ---- *)
+Lemma flag_partition n r : (c13_flag false n r + c13_flag true n r = 1)%N.
+Proof.
+  unfold c13_flag. rewrite sql_is_null_pred_negation.
+  now destruct (sql_is_null_pred false n r).
+Qed.
+
+Lemma sum_flags_partition n rows :
+  (c13_sum_flags false n rows + c13_sum_flags true n rows = N.of_nat (length rows))%N.
+Proof.
+  induction rows as [|r rows IH]; [reflexivity|].
+  cbn [c13_sum_flags fold_right length]. fold (c13_sum_flags false n rows). fold (c13_sum_flags true n rows).
+  rewrite Nat2N.inj_succ. pose proof (flag_partition n r) as Hf. lia.
+Qed.
+
+Lemma sum_flags_partition_ok n rows :
+  c13_partition_ok (c13_sum_flags false n rows) (c13_sum_flags true n rows) (N.of_nat (length rows)) = true.
+Proof. unfold c13_partition_ok. apply N.eqb_eq. apply sum_flags_partition. Qed.
+
+Lemma sum_flags_count neg n rows :
+  c13_sum_flags neg n rows =
+  N.of_nat (length (filter (fun r => if neg then col_is_not_null n r else col_is_null n r) rows)).
+Proof.
+  induction rows as [|r rows IH]; [reflexivity|].
+  cbn [c13_sum_flags fold_right filter]. fold (c13_sum_flags neg n rows). rewrite IH.
+  unfold c13_flag. rewrite sql_is_null_pred_correct.
+  destruct (if neg then col_is_not_null n r else col_is_null n r).
+  - cbn [length]. rewrite Nat2N.inj_succ. lia.
+  - lia.
+Qed.
+
+Lemma max_flags_exists neg n rows :
+  c13_max_flags neg n rows = 1%N <->
+  exists r, In r rows /\ (if neg then col_is_not_null n r else col_is_null n r) = true.
+Proof.
+  induction rows as [|r rows IH].
+  - cbn. split; [discriminate|]. intros [r [[] _]].
+  - cbn [c13_max_flags fold_right]. fold (c13_max_flags neg n rows).
+    unfold c13_flag at 1. rewrite sql_is_null_pred_correct.
+    destruct (if neg then col_is_not_null n r else col_is_null n r) eqn:E.
+    + split; [intros _; exists r; split; [now left|exact E]|].
+      intros _. assert (Hle : (c13_max_flags neg n rows <= 1)%N).
+      { clear. induction rows as [|r' rows IH]; cbn; [lia|].
+        fold (c13_max_flags neg n rows). unfold c13_flag. destruct (sql_is_null_pred neg n r'); lia. }
+      lia.
+    + rewrite N.max_0_l. rewrite IH. split.
+      * intros [r' [Hin Hr']]. exists r'. split; [now right|exact Hr'].
+      * intros [r' [[->|Hin] Hr']]; [congruence|]. exists r'. now split.
+Qed.
+
+Lemma min_flags_forall neg n rows :
+  c13_min_flags neg n rows = 1%N <->
+  forall r, In r rows -> (if neg then col_is_not_null n r else col_is_null n r) = true.
+Proof.
+  induction rows as [|r rows IH].
+  - cbn. split; [intros _ r []|reflexivity].
+  - cbn [c13_min_flags fold_right]. fold (c13_min_flags neg n rows).
+    unfold c13_flag at 1. rewrite sql_is_null_pred_correct.
+    destruct (if neg then col_is_not_null n r else col_is_null n r) eqn:E.
+    + assert (Hle : (c13_min_flags neg n rows <= 1)%N).
+      { clear. induction rows as [|r' rows IH]; cbn; [lia|].
+        fold (c13_min_flags neg n rows). lia. }
+      rewrite N.min_r by exact Hle. rewrite IH. split.
+      * intros H r' [<-|Hin]; [exact E|now apply H].
+      * intros H r' Hin. apply H. now right.
+    + rewrite N.min_0_l. split; [discriminate|].
+      intros H. specialize (H r (or_introl eq_refl)). congruence.
+Qed.
